@@ -250,8 +250,15 @@ def enum_c04(depth, nfiles=8):
     tree = [{"p": list(p), "e": e} for p, e in sorted(nodes.items())]
     files = [[] for _ in range(nfiles)]
     for i, p in enumerate(pats):
+        # the pattern under test next to other live subscriptions in the same subscriber tree
+        # (a '#' node, a '?' node and a literal branch at the first levels): routing must not
+        # depend on what else is subscribed
         w = [{"op": "import", "tree": tree},
-             {"op": "psub", "c": "c1", "tid": 1, "pat": p, "unique": False, "live": True}]
+             {"op": "psub", "c": "c1", "tid": 1, "pat": p, "unique": False, "live": True},
+             {"op": "psub", "c": "c3", "tid": 1, "pat": ["a", "#"], "unique": False, "live": True},
+             {"op": "psub", "c": "c3", "tid": 2, "pat": ["?", "b", "#"], "unique": False, "live": True},
+             {"op": "psub", "c": "c3", "tid": 3, "pat": ["a", "b", "a"], "unique": False, "live": True},
+             {"op": "psub", "c": "c3", "tid": 4, "pat": ["#"], "unique": False, "live": True}]
         w += [{"op": "set", "key": k, "val": "w", "c": "c2"} for k in keys]
         w += [{"op": "pget", "pat": p}, {"op": "pdelete", "pat": p, "c": "c2", "probe": True}, {"op": "pget", "pat": ["#"]}]
         files[i % nfiles].append(w)
